@@ -171,6 +171,28 @@ def check_C02(ctx):
                              "contents: pseudo-random, zeros, repetitive text; sizes are boundary-chosen"])
 
 
+C08_HISTORIES = ["H1-upload", "H1z-upload-3-chunks", "H2-ac-overwrite", "H3-wrong-hash-cleanup", "H4-evict", "H5-backend-fetch"]
+
+
+def check_C08(ctx):
+    th = ctx.thorough()
+    b = ctx.bin(DISK)
+    budget = 2400 if th else 150
+    jobs = []
+    for h in C08_HISTORIES:
+        for mode in ("zstd", "uncompressed"):
+            shards = 6 if h in ("H2-ac-overwrite", "H4-evict") else 2
+            for sh in range(shards):
+                jobs.append(Job(b, "TestVfC08", name="C08:%s/%s#%d" % (h, mode, sh), timeout=budget + 120,
+                                env={"VERIF_PARAM_HISTORY": h, "VERIF_PARAM_MODE": mode, "VERIF_BUDGET_S": str(budget),
+                                     "VERIF_SHARD": "%d/%d" % (sh, shards), "GOMAXPROCS": "2"}))
+    return dict(level="fault_enumeration", jobs=jobs,
+                rule="for each history x storage mode before x remover policy: the directory at every scheduling point of the real write path (file-namespace operations, every Read of the uploader's reader or backend stream, before commit, before every background unlink) is a crash image; each is expanded with every torn length of every file written since the previous point and every partial in-place overwrite (chunk-table rewrite); every distinct image is restarted with the real disk.New in both storage modes and every key is read with known/unknown size, plain and zstd; non-trivial = distinct (history, modes, kill point) images that restarted and passed the oracle",
+                assumptions=["process kill, not power loss: bytes written before the kill are on disk in order; torn writes within a file are modelled as prefixes / partial in-place overwrites",
+                             "file access and modification times of the image are restored on the restart copy",
+                             "histories are sequential; the background remover runs either as late or as early as possible (two policies)"])
+
+
 def check_C09(ctx):
     th = ctx.thorough()
     b = ctx.bin(DISK)
@@ -204,7 +226,7 @@ def check_C13(ctx):
                              "a method unknown to the harness's read-only list is treated as mutating"])
 
 
-CHECKS = {"C01": check_C01, "C02": check_C02, "C09": check_C09, "C13": check_C13, "C03": check_C03, "C04": check_C04, "C05": check_C05, "C07": check_C07}
+CHECKS = {"C01": check_C01, "C02": check_C02, "C08": check_C08, "C09": check_C09, "C13": check_C13, "C03": check_C03, "C04": check_C04, "C05": check_C05, "C07": check_C07}
 
 # per-property manifest metadata
 META = {
@@ -220,6 +242,12 @@ META = {
         note="Finite grid; chunk-boundary arithmetic is exercised exhaustively on small-chunk files and at boundary offsets on 1 MiB-chunk files.",
         technique="exhaustive enumeration of a finite input/configuration grid through the real entry points against a byte-exact oracle",
         design_ref="DESIGN.md 2.5, 3 (C02)"),
+    "C08": dict(
+        category="fault_enumeration", engine="E3 faultx",
+        text="Crash-point enumeration on the real write path: six histories (upload, 3-chunk upload, AC overwrite, rejected upload + retry, upload that evicts, backend fetch) x storage mode x remover policy run under the scheduler; the directory at every scheduling point is a kill image, expanded with every torn length of files written since the previous point and every partial in-place overwrite of the chunk table; every distinct image (hundreds to thousands per history) is restarted with the real disk.New in both storage modes and all keys are read with known/unknown size, identity and zstd. Oracle: restart succeeds; acknowledged and not evicted => served identically; nothing served that fails its digest / is not a completed AC value; accounting and directory invariants after the first reads; the interrupted upload can be repeated.",
+        note="Process kill, not power loss (no reordering of unsynced blocks). Three genuine design-level findings are recorded in known_findings.txt (in-place writes of .v1 and AC/RAW files).",
+        technique="exhaustive crash-point and torn-write enumeration of short histories on the real code, restart + read oracle",
+        design_ref="DESIGN.md 2.4, 3 (C08)"),
     "C09": dict(
         category="exploration", engine="E4 grid",
         text="Bounded-exhaustive enumeration of cache directory populations (all singles, ordered pairs and ordered triples over ten layout kinds incl. the legacy flat/two-level ac/ cas/ raw/ layouts, .v1 and compressed CAS, with block-edge sizes and atime order = position; lost+found and .DS_Store at every level; duplicate files per key) x max_size (above/equal/below total, below the largest file, one block) x storage mode after restart, each started with the real disk.New. Oracle: start-up succeeds; survivors == oldest-first eviction simulation; each survivor readable with identical content and size (size known and unknown); no leftover files or legacy directories; accounting == directory; later uploads evict the survivors in atime order.",
